@@ -169,6 +169,7 @@ type vrcStep struct {
 	with    []vrcStep // further intents of the same transaction
 	invalid bool      // the configuration that would result violates the schema: the step has to be rejected, nothing changes
 	orphan  bool      // with json == "": the intent is given up with the orphan flag (removed from the intended store only, the device keeps its values)
+	device  bool      // not a transaction: the device holds this configuration on its own (it is in running, no intent defines it)
 }
 
 type vrcLive struct {
@@ -246,6 +247,8 @@ func TestVerifReplayConverge(t *testing.T) {
 		"ruling intent orphaned":                                                          {{name: "A", prio: 10, json: ifA}, {name: "B", prio: 20, json: ifTwo}, {name: "A", prio: 10, json: "", orphan: true}},
 		"shadowed intent orphaned":                                                        {{name: "A", prio: 30, json: ifA}, {name: "B", prio: 20, json: ifTwo}, {name: "A", prio: 30, json: "", orphan: true}},
 		"the only intent orphaned":                                                        {{name: "A", prio: 10, json: ifTwo}, {name: "A", prio: 10, json: "", orphan: true}},
+		"a value the device held on its own is overwritten, the transaction is cancelled": {{device: true, json: ifA}, {name: "A", prio: 10, json: ifB, cancel: true}},
+		"a stronger intent takes the choice over, the transaction is cancelled":           {{name: "O2", prio: 10, json: case1}, {name: "O1", prio: 5, json: case2, cancel: true}},
 		"deleted intent cancelled":                                                        {{name: "A", prio: 10, json: ifTwo}, {name: "A", prio: 10, json: "", cancel: true}},
 	}
 	// several intents in one transaction: what the intended store holds of any of them is a former version. The order in
@@ -284,6 +287,7 @@ func TestVerifReplayConverge(t *testing.T) {
 		dc.wire(cc)
 		device := map[string]string{}
 		orphaned := false
+		unmanaged := false
 		sbi := mocktarget.NewMockTarget(ctrl)
 		sbi.EXPECT().Set(gomock.Any(), gomock.Any()).AnyTimes().DoAndReturn(
 			func(ctx context.Context, source target.TargetSource) (*sdcpb.SetDataResponse, error) {
@@ -321,6 +325,21 @@ func TestVerifReplayConverge(t *testing.T) {
 		for si, st := range steps {
 			n++
 			all := append([]vrcStep{st}, st.with...)
+			if st.device {
+				ti, err := d.SdcpbTransactionIntentToInternalTI(ctx, &sdcpb.TransactionIntent{Intent: "unmanaged", Priority: 1,
+					Update: []*sdcpb.Update{{Path: &sdcpb.Path{}, Value: &sdcpb.TypedValue{Value: &sdcpb.TypedValue_JsonVal{JsonVal: []byte(st.json)}}}}})
+				if err != nil {
+					t.Fatalf("%s: %v", hname, err)
+				}
+				dc.modify(&cache.Opts{Store: cachepb.Store_CONFIG}, nil, ti.GetUpdates())
+				for _, u := range ti.GetUpdates() {
+					tv, _ := u.Value()
+					device[strings.Join(u.GetPath(), "/")] = utils.TypedValueToString(tv)
+				}
+				done = append(done, "device on its own:"+st.json)
+				unmanaged = true
+				continue
+			}
 			var descr []string
 			for _, x := range all {
 				descr = append(descr, fmt.Sprintf("%s@%d:%s", x.name, x.prio, map[bool]string{true: "delete", false: x.json}[x.json == ""]))
@@ -371,6 +390,10 @@ func TestVerifReplayConverge(t *testing.T) {
 				// (the oracle above was not updated; the block below only computes `leaves` for set steps)
 			}
 			id := fmt.Sprintf("t%d", si)
+			deviceBefore := map[string]string{}
+			for k, v := range device {
+				deviceBefore[k] = v
+			}
 			var rsp *sdcpb.TransactionSetResponse
 			failed := false
 			func() {
@@ -422,6 +445,32 @@ func TestVerifReplayConverge(t *testing.T) {
 				if err := d.TransactionCancel(ctx, id); err != nil {
 					fmt.Printf("REPLAY-FAIL fn=%s clause=panic input=%s why=cancel failed: %v\n", fnLL, in, err)
 					break
+				}
+				// C05: a cancelled transaction leaves the device as it was before it
+				var cd []string
+				for k, v := range deviceBefore {
+					if g, ok := device[k]; !ok {
+						cd = append(cd, fmt.Sprintf("missing /%s=%s", k, v))
+					} else if g != v {
+						cd = append(cd, fmt.Sprintf("/%s is %s, was %s", k, g, v))
+					}
+				}
+				for k, v := range device {
+					if _, ok := deviceBefore[k]; !ok {
+						cd = append(cd, fmt.Sprintf("left behind /%s=%s", k, v))
+					}
+				}
+				sort.Strings(cd)
+				if len(cd) > 0 {
+					// (reported here once: the comparison with the merge of the live intents would only repeat it)
+					unmanaged = true
+					clause := "cancel_restores_the_device"
+					if hname == "a value the device held on its own is overwritten, the transaction is cancelled" || hname == "a stronger intent takes the choice over, the transaction is cancelled" {
+						clause += ".known" // recorded findings: unmanaged values are not given back; the former case is not loaded into the rollback tree
+					}
+					for _, f := range []string{fnLL} {
+						fmt.Printf("REPLAY-FAIL fn=%s clause=%s input=%s why=after the cancel the device differs from what it held before the transaction: %s\n", f, clause, in, strings.Join(cd, "; "))
+					}
 				}
 			} else if err := d.TransactionConfirm(ctx, id); err != nil {
 				// an accepted, applied transaction is open until it is confirmed
@@ -517,7 +566,7 @@ func TestVerifReplayConverge(t *testing.T) {
 			sort.Strings(diffs)
 			// (what an orphaned intent leaves on the device is no longer described by the live intents: the device is not
 			// compared from then on, the intended store still is)
-			if len(diffs) > 0 && !orphaned {
+			if len(diffs) > 0 && !orphaned && !unmanaged {
 				clause, fn := "device_holds_the_merge", fnLL
 				if (hname == "ruling intent with the other case is deleted" || hname == "ruling intent deleted, the other case was shadowed from the start") && len(diffs) == 1 && strings.HasPrefix(diffs[0], "missing /choices/case2") {
 					clause += ".known" // recorded finding: the other intents' nodes of a case that becomes active are not loaded into the tree
